@@ -418,7 +418,8 @@ class Ctx:
             io = impl_of(c)
             self.note_case({"stream": stream, "case": c}, nontrivial(c) if nontrivial else True)
             if io.startswith("err "):
-                st["errs"][io[4:]] = st["errs"].get(io[4:], 0) + 1
+                cls = io.split()[1]
+                st["errs"][cls] = st["errs"].get(cls, 0) + 1
             if mo == "unsupported" or mo == "err Unsupported":
                 st["unsupported"] += 1
                 self.unsupported += 1
